@@ -17,6 +17,7 @@ Checked clauses
     C01/<T>.__init__/slot         every constraint argument of the constructor reaches its slot
 """
 import datetime as dt
+import functools
 import logging
 import math
 import re
@@ -34,14 +35,25 @@ ROUTES = ["instance", "default", "class", "update", "kwarg", "deserialize"]
 # value lattice: (name, class, python-source).  Values are rebuilt from source for every case
 # (fresh mutable containers) and the same source is pasted into replay scripts.
 # ---------------------------------------------------------------------------------------------
-def _fn(*a, **k):
-    return 0
+class CO:
+    """A callable object (instances accept attribute assignment, like plain functions)."""
+
+    def __call__(self, *a, **k):
+        return 0
+
+    def meth(self, *a, **k):
+        return 0
 
 
 def _ns():
+    # every evaluation gets FRESH callables: Dynamic parameters write bookkeeping attributes on
+    # the callables they are given, which must not leak from one case into the next
+    def fn(*a, **k):
+        return 0
+
     return dict(dt=dt, Fraction=Fraction, Decimal=Decimal, nan=float("nan"), inf=float("inf"),
-                fn=_fn, len=len, int=int, str=str, bool=bool, dict=dict, float=float,
-                True_=True)
+                fn=fn, len=len, int=int, str=str, bool=bool, dict=dict, float=float,
+                True_=True, functools=functools, CO=CO)
 
 
 D = "dt.date(2020,%d,%d)"
@@ -93,7 +105,13 @@ GLOBAL = [
     ("[date(3,1),date(9,1)]", "list-date", "[%s,%s]" % (D % (3, 1), D % (9, 1))),
     ("(date(3,1),)", "tuple-date-len1", "(%s,)" % (D % (3, 1))),
     ("(date(3,1),1)", "tuple-nonnum", "(%s,1)" % (D % (3, 1))),
-    ("len", "callable", "len"), ("fn", "callable", "fn"),
+    # callables: "callable" = accepts attribute assignment (plain function, lambda, callable object,
+    # functools.partial); "callable-noattr" = does not (builtin, bound method)
+    ("fn", "callable", "fn"), ("lambda", "callable", "(lambda *a, **k: 0)"),
+    ("CO()", "callable", "CO()"), ("partial(fn)", "callable", "functools.partial(fn)"),
+    ("len", "callable-noattr", "len"), ("CO().meth", "callable-noattr", "CO().meth"),
+    ("(fn,fn)", "tuple-callable", "(fn,fn)"), ("(fn,1)", "tuple-callable", "(fn,1)"),
+    ("(1,lambda)", "tuple-callable", "(1,(lambda *a, **k: 0))"),
     ("int", "class", "int"), ("str", "class", "str"), ("bool", "class", "bool"),
     ("dict", "class", "dict"),
 ]
@@ -145,15 +163,16 @@ def all_configs():
     add("Color", [{}, {"allow_named": "True"}, {"allow_named": "False"}])
     add("Boolean", [{}])
     add("Event", [{}], with_an=False)
-    nb = [None, "(0,None)", "(None,10)", "(0,10)", "(-0.5,0.5)"]
+    # "(None,0)" / "(-10,0)": a bound EQUAL TO 0 on the upper side (falsy bound that is still a bound)
+    nb = [None, "(0,None)", "(None,10)", "(0,10)", "(-0.5,0.5)", "(None,0)", "(-10,0)"]
     cfgs += _bounded_cfgs("Number", nb)
-    cfgs += _bounded_cfgs("Integer", [None, "(0,None)", "(None,10)", "(0,10)"])
+    cfgs += _bounded_cfgs("Integer", [None, "(0,None)", "(None,10)", "(0,10)", "(None,0)", "(-10,0)"])
     cfgs += _bounded_cfgs("Magnitude", [None, "(0.0,1.0)"])     # None: the default bounds (0,1)
     db = [None, "(%s,None)" % DLO, "(None,%s)" % DHI, "(%s,%s)" % (DLO, DHI), "(%s,%s)" % (TLO, THI)]
     cfgs += _bounded_cfgs("Date", db)
     cfgs += _bounded_cfgs("CalendarDate", db[:4])
     add("Tuple", [{"length": "0"}, {"length": "1"}, {"length": "2"}, {"length": "3"}])
-    add("NumericTuple", [{"length": "1"}, {"length": "2"}, {"length": "3"}])
+    add("NumericTuple", [{"length": "0"}, {"length": "1"}, {"length": "2"}, {"length": "3"}])
     add("XYCoordinates", [{}])
     cfgs += _bounded_cfgs("Range", nb)
     cfgs += _bounded_cfgs("DateRange", db)
@@ -177,7 +196,8 @@ def all_configs():
                           {"class_": "(int,str)", "is_instance": "False"},
                           {"class_": "int", "is_instance": "True"}])
     add("Dict", [{}])
-    lb = [None, "(0,None)", "(1,2)", "(None,1)", "(2,2)", "(1,None)"]
+    # length bounds equal to 0 / admitting only the empty list: (0,0), (None,0), (0,1)
+    lb = [None, "(0,None)", "(1,2)", "(None,1)", "(2,2)", "(1,None)", "(0,0)", "(None,0)", "(0,1)"]
     lk = []
     for b in lb:
         for it in (None, "int", "(int,str)"):
@@ -190,7 +210,8 @@ def all_configs():
     lk += [{"item_type": "int", "is_instance": "False"}, {"class_": "int"},
            {"item_type": "int", "is_instance": "True", "bounds": "None"}]
     add("List", lk)
-    add("HookList", [{}, {"bounds": "(1,2)"}, {"bounds": "(None,1)"}])
+    add("HookList", [{}, {"bounds": "(1,2)"}, {"bounds": "(None,1)"}, {"bounds": "(0,0)"},
+                     {"bounds": "(None,0)"}, {"bounds": "(0,1)"}, {"bounds": "(0,None)"}])
     return cfgs
 
 
@@ -224,6 +245,15 @@ class Cfg:
         self.incl = self.kw.get("inclusive_bounds", (True, True))
 
 
+def _mid_src(t, b):
+    """Source of a number strictly inside the hard bounds ``b`` of a numeric type ``t``."""
+    if t == "Magnitude" or b == (-0.5, 0.5):
+        return "0" if t == "Integer" else "0.25"
+    if b is not None and b[1] == 0:
+        return "-5"
+    return "5"
+
+
 def _eps_values(cfgv):
     """Configuration dependent boundary values: (name, class, source)."""
     t = cfgv.T
@@ -235,7 +265,7 @@ def _eps_values(cfgv):
         lo, hi = b
         integer = t == "Integer"
         eps = "1" if integer else "1e-9"
-        mid = "0.25" if (lo, hi) == (-0.5, 0.5) or t == "Magnitude" else "5"
+        mid = _mid_src(t, b)
         pts = []
         if lo is not None:
             pts += [("at-lo", repr(lo)), ("below-lo", "%r-%s" % (lo, eps)), ("above-lo", "%r+%s" % (lo, eps))]
@@ -314,11 +344,9 @@ def valid_default_src(cfgv):
     t = cfgv.T
     b = cfgv.bounds
     if t in ("Number", "Integer", "Magnitude"):
-        if t == "Magnitude" or b == (-0.5, 0.5):
-            return "0.25" if t != "Integer" else "0"
-        return "5"
+        return _mid_src(t, b)
     if t == "Range":
-        return "(0.25,0.25)" if b == (-0.5, 0.5) else "(5,5)"
+        return "(%s,%s)" % (_mid_src(t, b), _mid_src(t, b))
     if t == "Date":
         return T % (6, 15, 0, 0)
     if t == "CalendarDate":
@@ -402,8 +430,10 @@ _SOME_CSS_NAMES = {"red", "black", "white", "blue"}
 def valid(c, v, route):
     """True / False / None (undecided by the statement) -- see module docstring."""
     t = c.T
-    if t in ("Number", "Integer", "Magnitude", "Date", "CalendarDate") and callable(v):
-        return None          # Dynamic types take callables as value generators: out of scope
+    if t in DYNAMIC_VALUE_TYPES and callable(v):
+        return None          # these types take callables as value generators: not decided
+    # (Date / CalendarDate derive from a Dynamic type but declare "only date types": a callable is
+    #  not a date, so the statement demands its rejection like for every other non-date value)
     # ---- None ------------------------------------------------------------------------------
     if v is None:
         if t in ("Selector", "ObjectSelector"):
@@ -631,6 +661,15 @@ def slot_checks(param, c, default_src):
         yield slot, exp, obs, (obs == exp and type(obs) is type(exp))
 
 
+def _attr_settable(v):
+    try:
+        v._c01_probe = 1
+        del v._c01_probe
+        return True
+    except (AttributeError, TypeError):
+        return False
+
+
 def _jsonable(v, vcls):
     if vcls not in JSONABLE_CLS:
         return False
@@ -639,7 +678,8 @@ def _jsonable(v, vcls):
     return True
 
 
-DYNAMIC_TYPES = {"Number", "Integer", "Magnitude", "Date", "CalendarDate"}
+DYNAMIC_TYPES = {"Number", "Integer", "Magnitude", "Date", "CalendarDate"}      # subclasses of param.Dynamic
+DYNAMIC_VALUE_TYPES = {"Number", "Integer", "Magnitude"}         # ... that document callable values
 DESER_TYPES = {"String", "Number", "Integer", "Magnitude", "Boolean", "List", "Color", "Parameter"}
 
 
@@ -684,16 +724,22 @@ def run_chunk(args):
                 if route not in routes:
                     continue
                 if tier == "quick" and route not in ("instance", "default") and \
-                        (ci * 7919 + vi * 104729 + ri * 31 + seed) % 8 != 0:
-                    continue
+                        (ci * 7919 + vi * 104729 + ri * 31 + seed) % 8 != 0 and \
+                        not (vcls == "callable" and c.T in DYNAMIC_TYPES and len(c.kw) <= 1):
+                    continue     # (callables on Dynamic-derived types: every route also in quick)
                 v = eval(vsrc, _ns())
                 if route == "deserialize":
                     if c.T not in DESER_TYPES or not _jsonable(v, vcls):
                         continue
                     if v != v or v in (float("inf"), float("-inf")):
                         continue
-                if c.T in DYNAMIC_TYPES and callable(v):
-                    continue     # scope: callables are value generators for Dynamic types
+                if c.T in DYNAMIC_TYPES and callable(v) and not _attr_settable(v):
+                    # scope: Dynamic documents that a callable "must allow attributes to be set on
+                    # itself"; builtins / bound methods / builtin classes fail that precondition with
+                    # AttributeError/TypeError before any constraint is looked at.  Types that merely
+                    # inherit from Dynamic still get them on the routes where no generator set-up runs.
+                    if c.T in DYNAMIC_VALUE_TYPES or route == "default":
+                        continue
                 exp = valid(c, v, route)
                 outcome, inst_ok = attempt(param, c, v, route, dsrc)
                 keys.append("%s|%s|%s|%s" % (c.T, cs, vname, route))
@@ -727,9 +773,13 @@ warnings.simplefilter('ignore'); logging.getLogger('param').setLevel(100)
 import datetime as dt
 from fractions import Fraction
 from decimal import Decimal
+import functools
 import param
 nan = float('nan'); inf = float('inf')
 def fn(*a, **k): return 0
+class CO:
+    def __call__(self, *a, **k): return 0
+    def meth(self, *a, **k): return 0
 
 T = param.{T}
 def cfg(): return dict({kwsrc})
@@ -765,7 +815,7 @@ try:
 except Exception as e:
     outcome = type(e).__name__; got = None; print('raised', type(e).__name__ + ':', e)
 
-print('type={T} cfg=({kwsrc}) value={vsrc} route=' + route, '-> observed', outcome, '; statement demands', expected)
+print({desc!r} + route, '-> observed', outcome, '; statement demands', expected)
 bad = None
 if outcome == 'accept' and expected == 'reject': bad = 'value violating the declared constraints was accepted'
 elif outcome != 'accept' and expected == 'accept': bad = 'value satisfying every declared constraint was rejected (' + outcome + ')'
@@ -797,14 +847,15 @@ def _kwsrc(cfg):
 
 
 def make_replay(f, clause, witness):
-    head = REPLAY_HEADER.format(prop="C01", name="replay_c01.py", clause=clause, witness=witness)
+    head = REPLAY_HEADER.format(prop="C01", name="replay_c01.py", clause=clause, witness=witness).replace("sys.path.insert(0, '/repo')", "import os\nsys.path.insert(0, os.environ.get('PYVC_REPO', '/repo'))      # (PYVC_REPO: a scratch copy of the library under test)")
     if f["kind"] == "slot":
         return head + _REPLAY_SLOT.format(T=f["T"], kwsrc=_kwsrc(f["cfg"]), dsrc=f["dsrc"],
                                           nodef=f["dsrc"] is None, slot=f["slot"], exp=f["exp"])
     expected = {True: "accept", False: "reject", None: None}[f["exp"]]
     return head + _REPLAY_BODY.format(T=f["T"], kwsrc=_kwsrc(f["cfg"]), vsrc=f["vsrc"],
                                       dsrc=f["dsrc"], nodef=f["dsrc"] is None, route=f["route"],
-                                      expected=expected)
+                                      expected=expected,
+                                      desc="type=%s cfg=(%s) value=%s route=" % (f["T"], _kwsrc(f["cfg"]), f["vsrc"]))
 
 
 MAX_CLASSES_PER_CLAUSE = 6      # value classes reported per (type, kind); the rest is summarised in a note
@@ -838,12 +889,16 @@ def run(tier, seed):
              "outcome compared with a three-valued oracle valid_T(cfg,value) written from the statement; "
              "plus one case per (type, configuration, constructor argument) checking that the argument "
              "reaches its slot",
-        bound="26 types x %d configurations (bounds None/one-sided/two-sided x 4 inclusivity x allow_None, "
+        bound="26 types x %d configurations (bounds None/one-sided/two-sided incl. a bound equal to 0 on either side x 4 inclusivity x allow_None, "
+              "length bounds incl. (0,0)/(None,0)/(0,1), "
               "lengths 0-3, 3 regexes, item types, object lists/dicts, class_/is_instance, allow_named) x "
               "%d global lattice values + up to 60 configuration-relative boundary values "
               "(at/below/above each bound, as int/float/Fraction, date and datetime at 1 day / 1 us) x "
               "6 routes (instance, constructor default, class, update, constructor kwarg, JSON deserialize "
-              "for JSON-native values); quick: instance and constructor-default routes complete, other routes 1-in-8 slice by seed"
+              "for JSON-native values); callables (plain function, lambda, callable object, functools.partial, "
+              "builtin, bound method, tuples of them) are offered to every type; "
+              "quick: instance and constructor-default routes complete, other routes 1-in-8 slice by seed "
+              "(callables on Dynamic-derived types: every route)"
               % (len(all_configs()), len(GLOBAL)))
     cfgs = all_configs()
     n = len(cfgs)
@@ -910,7 +965,10 @@ def run(tier, seed):
            "(exception class only); %d successful attempts had their installed object compared by identity"
            % (attempts, decided, attempts - decided,
               sum(v for k, v in ce.items() if k.endswith("installed-is-assigned"))))
-    B.note("out of scope (DESIGN 7/C01): callables given to Dynamic-derived types, Decimal NaN, "
+    B.note("out of scope (DESIGN 7/C01): verdict on callables given to Number/Integer/Magnitude (value "
+           "generators: only the exception class is checked; Date/CalendarDate must reject them), callables "
+           "that do not accept attribute assignment on Number/Integer/Magnitude and as constructor default "
+           "of Date/CalendarDate (documented precondition of Dynamic), Decimal NaN, "
            "file-system/array types; undecided by the statement (only exception class checked): bool "
            "for Number/Integer, None on the constructor-default route, reversed or mixed date ranges, "
            "datetimes in CalendarDateRange, case of colour names")
